@@ -133,6 +133,22 @@ def props_assumptions(prop_file):
     return {"theorems": thms, "n_print": n_print, "closed": closed, "axioms": axioms}, out
 
 
+def coqchk(modules, timeout=1800):
+    """independent re-check of compiled files (and everything they depend on) with coqchk -o; returns (ok, summary dict, text)"""
+    r = subprocess.run(["coqchk", "-silent", "-o", "-R", os.path.join(COQ, "theories"), "TEV"] + list(modules),
+                       capture_output=True, text=True, cwd=COQ, timeout=timeout)
+    out = r.stdout + r.stderr
+    m = re.search(r"CONTEXT SUMMARY(.*)", out, flags=re.S)
+    summ = {}
+    if m:
+        for key, label in (("axioms", "Axioms"), ("type_in_type", "Constants/Inductives relying on type-in-type"),
+                           ("unsafe_fix", "Constants/Inductives relying on unsafe (co)fixpoints"), ("positivity", "Inductives whose positivity is assumed")):
+            mm = re.search(r"\* " + re.escape(label) + r":(.*?)(?=\n\* |\Z)", m.group(1), flags=re.S)
+            txt = mm.group(1).strip() if mm else "?"
+            summ[key] = [] if txt == "<none>" else [x.strip() for x in txt.split("\n") if x.strip()]
+    return r.returncode == 0 and bool(m), summ, out[-3000:]
+
+
 def coq_eval(tag, imports, defs, exprs, chunk=8, timeout=600):
     """Evaluate closed Gallina expressions of type list Z with vm_compute, in parallel
     chunks. Returns a list (one per expr) of list[int], or raises RuntimeError."""
